@@ -215,31 +215,27 @@ _k("p11_signal_bits", "atomicsignal::verif_contracts::proofs", "Pk", ["C13", "C1
 # layer I: real ring operations under the protocol environment (budget b = env actions per call)
 IB = "budget of %d environment actions per call; env = other senders claiming/publishing, consumers of every stream, sibling pins, handle churn"
 for (nm, tier, props, b) in (
-        ("i1_send_multi_bcast_n2_b2", "quick", ["C01", "C02", "C03", "C04", "C12"], 2),
-        ("i1_send_multi_bcast_n2_b3", "thorough", ["C01", "C02", "C03", "C04", "C12"], 3),
-        ("i1_send_multi_mpmc_n2_b2", "quick", ["C01", "C02", "C03", "C12"], 2),
+        ("i1_send_multi_bcast_n2_b2", "thorough", ["C01", "C02", "C03", "C04", "C12"], 2),
+        ("i1_send_multi_mpmc_n2_b2", "thorough", ["C01", "C02", "C03", "C12"], 2),
         ("i1_send_single_bcast_n2_b2", "quick", ["C01", "C03", "C04", "C12"], 2),
         ("i1_send_single_mpmc_n2_b2", "thorough", ["C01", "C03", "C12"], 2),
         ("i1_send_multi_bcast_n1_b2", "thorough", ["C01", "C02", "C03", "C04", "C12"], 2),
-        ("i1_send_multi_bcast_n4_b3", "thorough", ["C01", "C02", "C03", "C04", "C12"], 3),
-        ("i2_recv_shared_bcast_n2_b2", "quick", ["C01", "C02", "C04", "C05", "C06", "C07", "C12"], 2),
-        ("i2_recv_shared_bcast_n2_b3", "thorough", ["C01", "C02", "C04", "C05", "C06", "C07", "C12"], 3),
-        ("i2_recv_shared_mpmc_n2_b2", "quick", ["C01", "C02", "C05", "C06", "C07", "C12"], 2),
+        ("i2_recv_shared_bcast_n2_b2", "thorough", ["C01", "C02", "C04", "C05", "C06", "C07", "C12"], 2),
+        ("i2_recv_shared_mpmc_n2_b2", "thorough", ["C01", "C02", "C05", "C06", "C07", "C12"], 2),
         ("i2_recv_shared_mpmc_n2_b3", "thorough", ["C01", "C02", "C05", "C06", "C07", "C12"], 3),
-        ("i2_recv_sole_bcast_n2_b2", "quick", ["C01", "C02", "C04", "C07", "C12"], 2),
+        ("i2_recv_sole_bcast_n2_b2", "thorough", ["C01", "C02", "C04", "C07", "C12"], 2),
         ("i2_recv_sole_mpmc_n2_b2", "thorough", ["C01", "C02", "C07", "C12"], 2),
         ("i2_recv_shared_bcast_n1_b2", "thorough", ["C01", "C02", "C04", "C05", "C06", "C07"], 2),
-        ("i2_recv_shared_bcast_n4_b3", "thorough", ["C01", "C02", "C04", "C05", "C06", "C07"], 3),
         ("i7_view_bcast_n2_b2", "quick", ["C01", "C04", "C07"], 2),
         ("i7_view_mpmc_n2_b2", "quick", ["C01", "C04", "C05", "C07"], 2),
         ("i7_view_bcast_n1_b3", "thorough", ["C01", "C04", "C07"], 3)):
     _k(nm, MQ_S, "I", props, tier, IB % b, label="proved-for-stated-bounds (<= %d env actions, retries bounded by them)" % b)
 
-_k("i2_recv_churn_bcast_n2_b2", MQ_S, "I", ["C01", "C06", "C12"], "quick", "N=2, shared stream; env = sibling receives + sibling handles cloned/dropped; 2 env actions", label="proved-for-stated-bounds (<= 2 env actions)")
+_k("i2_recv_churn_bcast_n2_b2", MQ_S, "I", ["C01", "C06", "C12"], "thorough", "N=2, shared stream; env = sibling receives + sibling handles cloned/dropped; 2 env actions", label="proved-for-stated-bounds (<= 2 env actions)")
 _k("i2_recv_churn_mpmc_n2_b2", MQ_S, "I", ["C01", "C12"], "thorough", "N=2, shared stream; env = sibling receives + sibling handles cloned/dropped; 2 env actions", label="proved-for-stated-bounds (<= 2 env actions)")
 for (nm, props) in (("i1_send_multi_bcast_n2_b1", ["C01", "C02", "C03", "C04", "C12"]), ("i1_send_multi_mpmc_n2_b1", ["C01", "C02", "C03", "C12"]),
                     ("i2_recv_shared_bcast_n2_b1", ["C01", "C02", "C04", "C05", "C06", "C07", "C12"]), ("i2_recv_shared_mpmc_n2_b1", ["C01", "C02", "C05", "C06", "C07", "C12"]),
-                    ("i2_recv_churn_bcast_n2_b1", ["C01", "C06", "C12"]), ("i5_recv_args_shared_bcast_n2_b1", ["C08"]), ("i5_recv_args_shared_mpmc_n2_b1", ["C08"])):
+                    ("i2_recv_churn_bcast_n2_b1", ["C01", "C06", "C12"]), ("i5_recv_args_shared_mpmc_n2_b1", ["C08"])):
     _k(nm, MQ_S, "I", props, "quick", IB % 1, label="proved-for-stated-bounds (<= 1 env action, <= 1 retry)")
 _k("i6_add_stream_sole_n1_b3", MQ_S, "I", ["C10"], "quick", "N=1, sole parent handle; env = producers publishing + other consumers; 3 env actions", label="proved-for-stated-bounds (<= 3 env actions)")
 _k("i6_add_stream_sole_n2_b2", MQ_S, "I", ["C10"], "thorough", "N=2, sole parent handle; 2 env actions", label="proved-for-stated-bounds (<= 2 env actions)")
@@ -250,8 +246,7 @@ _k("i12_remove_consumer_n2", MQ_S, "I", ["C11", "C12"], "quick", "consumer count
 _k("i12_dup_consumer_n2", MQ_S, "I", ["C12"], "quick", "consumer count 1..2; a sibling handle dropped at any point in between", label="proved-for-stated-bounds (<= 1 env action)")
 
 # I5: wait arguments under interference
-for (nm, tier) in (("i5_recv_args_sole_bcast_n2_b2", "quick"), ("i5_recv_args_shared_bcast_n2_b2", "quick"),
-                   ("i5_recv_args_shared_mpmc_n2_b2", "quick"), ("i5_recv_view_args_bcast_n2_b2", "thorough")):
+for (nm, tier) in (("i5_recv_args_shared_mpmc_n2_b2", "thorough"), ("i5_recv_view_args_bcast_n2_b2", "quick")):
     _k(nm, MQ_S, "I", ["C08"], tier, IB % 2, label="proved-for-stated-bounds (<= 2 env actions)")
 
 # T: try operations run alone from frozen-others states
